@@ -7,7 +7,7 @@
    (k = its session number, b = position of its first request, its script,
    its trace); [ex r T] is the sub-trace of the exchange of request r. *)
 From Coq Require Import List Bool Arith.
-From Martian.C02 Require Import Model Proofs_Refine Proofs_Clauses Proofs_Oracle Proofs_Main.
+From Martian.C02 Require Import Model Proofs_Refine Proofs_Clauses Proofs_Oracle Proofs_Main Proofs_Conc.
 Import ListNotations.
 
 (* The model is total (never out of fuel), ends with an empty
@@ -68,6 +68,37 @@ Theorem C02_session_shared_per_connection : forall conns Ts n,
       end) 0 0 conns Ts.
 Proof. exact m_session. Qed.
 Print Assumptions C02_session_shared_per_connection.
+
+(* ... and by no other: modifier calls of two different connections never
+   see the same session. *)
+Theorem C02_session_by_no_other_connection : forall conns Ts n,
+  model_obs fixed conns = Some (Ts, n) ->
+  forall i j T1 T2 e1 e2 s1 s2, i <> j ->
+    nth_error Ts i = Some T1 -> nth_error Ts j = Some T2 ->
+    In e1 T1 -> In e2 T2 -> ev_sess e1 = Some s1 -> ev_sess e2 = Some s2 -> s1 <> s2.
+Proof. exact m_session_by_no_other. Qed.
+Print Assumptions C02_session_by_no_other_connection.
+
+(* Connections served CONCURRENTLY, under every schedule (which connection
+   performs the next exchange): context IDs are pairwise distinct over all
+   exchanges of the run and two exchanges share a session exactly when they
+   are on the same connection.  Assumption, stated in the model: drawing an
+   identifier (context.go newID: crypto/rand into a slice of its own) is
+   atomic, i.e. no two draws share state. *)
+Theorem C02_ids_unique_under_every_schedule : forall sched next,
+  NoDup (map co_ctx (conc_run next sched)) /\
+  forall a b, In a (conc_run next sched) -> In b (conc_run next sched) ->
+    (co_conn a = co_conn b <-> co_sess a = co_sess b).
+Proof. exact conc_model_good. Qed.
+Print Assumptions C02_ids_unique_under_every_schedule.
+
+(* the oracle evaluated on a concurrent batch of the real proxy is that statement *)
+Theorem C02_concurrent_oracle_is_the_property : forall obs,
+  conc_ok obs = true <->
+  (NoDup (map co_ctx obs) /\
+   forall a b, In a obs -> In b obs -> (co_conn a = co_conn b <-> co_sess a = co_sess b)).
+Proof. exact conc_ok_iff. Qed.
+Print Assumptions C02_concurrent_oracle_is_the_property.
 
 (* whenever a modifier runs, the only retrievable context is that of the
    exchange it runs for; nothing is retrievable when everything has ended. *)
@@ -175,6 +206,19 @@ Theorem C02_oracle_is_the_property : forall conns Ts live ret,
 Proof. exact c02_ok_iff. Qed.
 Print Assumptions C02_oracle_is_the_property.
 
+(* A PROPFAIL names a clause that does fail: whenever the per-connection
+   checker returns clause c, the Prop-level statement of c is false of that
+   connection's observation ([clause_prop] lists the statements). *)
+Theorem C02_propfail_names_a_failing_clause : forall k b reqs T c,
+  conn_fail k b reqs T = Some c -> ~ clause_prop c k b reqs T.
+Proof. exact conn_fail_names_failing_clause. Qed.
+Print Assumptions C02_propfail_names_a_failing_clause.
+
+Theorem C02_propfail_is_a_violation : forall conns Ts live ret c,
+  c02_fail conns Ts live ret = Some c -> ~ C02_good conns Ts live ret.
+Proof. exact not_good_of_fail. Qed.
+Print Assumptions C02_propfail_is_a_violation.
+
 Theorem C02_model_satisfies_oracle : forall conns Ts n,
   model_obs fixed conns = Some (Ts, n) ->
   forallb (forallb (fun q => negb (is_blind q && is_qskip q))) conns = true ->
@@ -214,6 +258,20 @@ Example C02_example :
        ReqMod 6 5 1 [6]; Upstream 6 true 0 1; ResMod 6 true 5 1 203 0 0 [6]; HijackRet 6;
        SockClose]], 0).
 Proof. vm_compute. reflexivity. Qed.
+
+(* concurrent clause: a schedule interleaving three connections *)
+Example C02_example_schedule :
+  conc_run 0 [0; 1; 0; 2; 1; 0] = [(0, 0, 0); (1, 1, 1); (0, 2, 0); (2, 3, 2); (1, 4, 1); (0, 5, 0)]
+  /\ conc_ok (conc_run 0 [0; 1; 0; 2; 1; 0]) = true
+  /\ conc_ok [(0, 0, 0); (1, 0, 1)] = false          (* a repeated context ID *)
+  /\ conc_ok [(0, 0, 0); (1, 1, 0)] = false.         (* two connections, one session *)
+Proof. repeat split; reflexivity. Qed.
+
+(* clause attribution: the hypothesis is met by the pinned commit's hijack trace *)
+Example C02_example_propfail :
+  conn_fail 0 0 [mkReq Plain true false false RtOk false false false]
+            [ReqMod 0 0 0 [0]; HijackRet 0; SockRead; SockClose] = Some CHijack.
+Proof. reflexivity. Qed.
 
 Example C02_example_guard_met :
   forallb (forallb (fun q => negb (is_blind q && is_qskip q)))
